@@ -9,7 +9,7 @@ use serde_json::{json, Value};
 pub static ENGINE: Engine = Engine {
     prop: "C18",
     level: "exploration",
-    rule: "the real random_graph_gen binary with its random source scripted through the verif-hooks feature: for every (V, -u) whose candidate edge list has m <= 6 entries (directed V <= 3, undirected V <= 4) ALL m! Fisher-Yates choice vectors x every E in 0..m+1 x {edge list, --dot}: exactly E distinct edges, endpoints distinct and among v0..v(V-1), no reversed pair under -u, E > m refused with non-zero exit and no edge printed, and the number of distinct outputs over all vectors equals m!/(m-E)! (proof that every choice is owned). --complete x V in 0..5 x -u = all pairs. --convert: every edge list <= 3 over {a,b,c} x -u reproduces the list (reversed duplicates merged under -u). --colors k: every loop-free graph on <= 4 named vertices x k in 0..3: the output has a clique choosing one (vertex,colour) per input vertex iff the input is k-colourable (brute force). Labelled supplement: un-scripted runs with fresh entropy (sampled, not part of the claim). distinct = distinct (argv, script, stdout)",
+    rule: "the real random_graph_gen binary with its random source scripted through the verif-hooks feature: for every (V, -u) whose candidate edge list has m <= 6 entries (directed V <= 3, undirected V <= 4) ALL m! Fisher-Yates choice vectors x every E in 0..m+1 x {edge list, --dot}: exactly E distinct edges, endpoints distinct and among v0..v(V-1), no reversed pair under -u, E > m refused with non-zero exit and no edge printed, and the number of distinct outputs over all vectors equals m!/(m-E)! (proof that every choice is owned). For larger candidate lists (V=4,5 directed; V=5,6 undirected; m = 10..20) every ORDERED SELECTION of E <= 2 (3) candidate edges is forced by a constructed choice vector. --complete x V in 0..5 x -u = all pairs. --convert: every edge list <= 3 over {a,b,c} x -u reproduces the list (reversed duplicates merged under -u). --colors k: every loop-free graph on <= 4 named vertices (two name families, one with names that are prefixes of each other) x k in 0..3: the output has a clique choosing one (vertex,colour) per input vertex iff the input is k-colourable (brute force). Labelled supplement: un-scripted runs with fresh entropy (sampled, not part of the claim). distinct = distinct (argv, script, stdout)",
     assumptions: &["the hook replays RSBDD_VERIF_RNG as the u32 values drawn by rand 0.8's shuffle (widening-multiply index sampling); a mismatch shows up as a wrong number of distinct outputs", "k-colourability is defined on loop-free graphs; isolated vertices cannot be expressed in an edge list"],
     max_shards: 64,
     run,
@@ -184,6 +184,78 @@ fn scripted_sweep(ctx: &mut Ctx, only: Option<(usize, usize, bool, bool, Vec<u32
     }
 }
 
+
+/// choice vector (as u32 draws) that makes the Fisher-Yates shuffle of 0..m end in `target`
+fn script_for_permutation(target: &[usize]) -> Vec<u32> {
+    let m = target.len();
+    let mut arr: Vec<usize> = (0..m).collect();
+    let mut script = vec![];
+    for i in (1..m).rev() {
+        let j = arr.iter().position(|x| *x == target[i]).expect("permutation");
+        debug_assert!(j <= i);
+        arr.swap(i, j);
+        script.push(draw_for(j as u64, i as u64 + 1));
+    }
+    script
+}
+
+/// larger candidate lists (m = 10..20): every ORDERED SELECTION of E <= 2 (3) candidate
+/// edges is produced once by a choice vector constructed for it
+fn selection_sweep(ctx: &mut Ctx) {
+    let mut idx = 0u64;
+    let th = ctx.thorough();
+    for (v, u) in [(4usize, false), (5, true), (5, false), (6, true)] {
+        let m = if u { v * (v - 1) / 2 } else { v * (v - 1) };
+        for e in 1..=(if th && m <= 12 { 3 } else { 2 }) {
+            idx += 1;
+            if !ctx.mine(idx) {
+                continue;
+            }
+            let mut outputs: Vec<Vec<(String, String)>> = vec![];
+            let mut failed = false;
+            let mut sels: Vec<Vec<usize>> = vec![];
+            for_each_seq(m, e, &mut |_, d| {
+                let mut dd = d.to_vec();
+                dd.sort_unstable();
+                dd.dedup();
+                if dd.len() == e {
+                    sels.push(d.to_vec());
+                }
+            });
+            for sel in &sels {
+                let mut target = sel.clone();
+                target.extend((0..m).filter(|x| !sel.contains(x)));
+                let script = script_for_permutation(&target);
+                ctx.begin_case(|| gen_case(v, e, u, false, &script));
+                ctx.count("evaluations", 1);
+                ctx.count("selection_runs", 1);
+                let r = run_generate(v, e, u, false, Some(&script));
+                ctx.distinct(&(v, e, u, &script, &r.stdout));
+                let key = format!("{TAG} random_graph_gen {v} {e}{} with random draws {:?}", if u { " -u" } else { "" }, script);
+                match judge_generated(&r, v, e, u, false, m) {
+                    Err(msg) => {
+                        ctx.violation(key, msg, gen_case(v, e, u, false, &script));
+                        failed = true;
+                    }
+                    Ok(Some(edges)) => {
+                        if !outputs.contains(&edges) {
+                            outputs.push(edges);
+                        }
+                    }
+                    Ok(None) => {}
+                }
+            }
+            if !failed && outputs.len() != sels.len() {
+                ctx.violation(
+                    format!("{TAG} random_graph_gen {v} {e}{}: outputs over all ordered selections", if u { " -u" } else { "" }),
+                    format!("{} distinct graphs for {} ordered selections of {e} of the {m} candidate edges", outputs.len(), sels.len()),
+                    gen_case(v, e, u, false, &[]),
+                );
+            }
+        }
+    }
+}
+
 fn complete_sweep(ctx: &mut Ctx) {
     for v in 0..=5usize {
         for u in [false, true] {
@@ -330,19 +402,22 @@ fn convert_sweep(ctx: &mut Ctx) {
         }
     }
     // colourings: every loop-free undirected graph on <= 4 vertices as an edge list
-    let v4 = ["p", "q", "r", "s"];
-    let mut und = vec![];
-    for i in 0..4 {
-        for j in (i + 1)..4 {
-            und.push((v4[i].to_string(), v4[j].to_string()));
+    // two name families: plain names, and names that are prefixes of one another (the
+    // derived names <v>_c<k> then sort differently from the original names)
+    for v4 in [["p", "q", "r", "s"], ["v1", "v10", "v1A", "w"]] {
+        let mut und = vec![];
+        for i in 0..4 {
+            for j in (i + 1)..4 {
+                und.push((v4[i].to_string(), v4[j].to_string()));
+            }
         }
-    }
-    for mask in 1..(1usize << und.len()) {
-        let edges: Vec<(String, String)> = (0..und.len()).filter(|i| mask & (1 << i) != 0).map(|i| if (mask + i) % 2 == 0 { und[i].clone() } else { (und[i].1.clone(), und[i].0.clone()) }).collect();
-        for k in 0..=3usize {
-            idx += 1;
-            if ctx.mine(idx) {
-                check_colors(ctx, &edges, k);
+        for mask in 1..(1usize << und.len()) {
+            let edges: Vec<(String, String)> = (0..und.len()).filter(|i| mask & (1 << i) != 0).map(|i| if (mask + i) % 2 == 0 { und[i].clone() } else { (und[i].1.clone(), und[i].0.clone()) }).collect();
+            for k in 0..=3usize {
+                idx += 1;
+                if ctx.mine(idx) {
+                    check_colors(ctx, &edges, k);
+                }
             }
         }
     }
@@ -367,6 +442,7 @@ fn unscripted_supplement(ctx: &mut Ctx) {
 
 fn run(ctx: &mut Ctx) {
     scripted_sweep(ctx, None);
+    selection_sweep(ctx);
     if ctx.shard == 0 {
         complete_sweep(ctx);
     }
@@ -389,7 +465,19 @@ fn replay(ctx: &mut Ctx, c: &Value) {
             let e = c["e"].as_u64().unwrap_or(0) as usize;
             let u = c["undirected"].as_bool().unwrap_or(false);
             let dot = c["dot"].as_bool().unwrap_or(false);
-            if script.is_empty() && v > 1 {
+            let m = if u { v * v.saturating_sub(1) / 2 } else { v * v.saturating_sub(1) };
+            if !script.is_empty() && m > 6 {
+                let r = run_generate(v, e, u, dot, Some(&script));
+                if let Err(msg) = judge_generated(&r, v, e, u, dot, m) {
+                    ctx.violation(format!("{TAG} random_graph_gen {v} {e} with random draws {:?}", script), msg, c.clone());
+                }
+            } else if script.is_empty() && m > 6 {
+                let mut c2 = Ctx::new("C18", ctx.tier, ctx.seed, 0, 1);
+                selection_sweep(&mut c2);
+                for viol in c2.violations {
+                    ctx.violation(viol.key, viol.what, viol.replay);
+                }
+            } else if script.is_empty() && v > 1 {
                 // the distinct-output count of a whole group
                 let mut c2 = Ctx::new("C18", ctx.tier, ctx.seed, 0, 1);
                 scripted_sweep(&mut c2, None);
